@@ -14,7 +14,7 @@ import (
 func init() {
 	core.Register(&core.Spec{
 		ID: "C11", Level: "fault_enumeration",
-		Rule: "case kinds (i mod 4): 0,1 = a data-changing procedure from the C01 generator, 2 = a read-only procedure, 3 = lock scenarios (orphan lock file, live competing holder, signal while waiting for a lock). A tracing run lists every hook point the procedure reaches (statement starts, load begin/end, every lock-acquisition / commit / close step in lib/file, transaction commit/rollback steps); the procedure is then re-run once per (point,hit) x {SIGINT,SIGTERM,SIGQUIT} with the signal delivered to itself exactly there (quick: up to 36 points per procedure, thorough: all), plus termination by error, EXIT, lock timeout and a COMMIT whose publishing rename is refused (strace EPERM injection, from the first / from the second rename on). " +
+		Rule: "case kinds (i mod 4): 0,1 = a data-changing procedure from the C01 generator, 2 = a read-only procedure, 3 = lock scenarios (orphan lock file, live competing holder, signal while waiting for a lock). A tracing run lists every hook point the procedure reaches (statement starts, load begin/end, every lock-acquisition / commit / close step in lib/file, transaction commit/rollback steps); the procedure is then re-run once per (point,hit) x {SIGINT,SIGTERM,SIGQUIT,SIGHUP} with the signal delivered to itself exactly there (quick: up to 36 points per procedure, thorough: all), plus termination by error, EXIT, lock timeout and a COMMIT whose publishing rename is refused (strace EPERM injection, from the first / from the second rename on). " +
 			"After every run the directory must hold no .lock/.rlock/.temp file and no table that is not part of the last completed COMMIT; a read-only procedure must leave every entry identical in bytes and mtime. non-trivial = the signal was really delivered at the point (process ended by it or with the signal exit code); distinct = (procedure, point, signal).",
 		Quick: 24, Thorough: 600, FloorQuick: 700, FloorThorough: 18000,
 		CaseTimeout: 20 * time.Minute,
@@ -24,7 +24,13 @@ func init() {
 }
 
 func c11Leftovers(w *core.Worker, p *txProc, r txRun, variant string, env []string, allowed map[string]bool) {
-	dumps := parseDumps(r.res.Stdout)
+	c11LeftoversDumps(w, p, r, r.res.Stdout, variant, env, allowed)
+}
+
+// c11LeftoversDumps: stdout names the output the commit dumps are read from (the undisturbed run's when this run's own
+// standard output was cut off on purpose)
+func c11LeftoversDumps(w *core.Worker, p *txProc, r txRun, stdout, variant string, env []string, allowed map[string]bool) {
+	dumps := parseDumps(stdout)
 	var cd []txDump
 	for _, d := range dumps {
 		if d.Tag == "c" && d.Done {
@@ -97,6 +103,7 @@ func c11Case(w *core.Worker, i int) {
 	for n := range p.Files {
 		allowed[n] = true
 	}
+	baselineStdout := ""
 	judge := func(d string, run txRun, variant string, env []string) {
 		if run.res.Signal == 9 && !run.res.TimedOut {
 			w.Inconclusive(fmt.Sprintf("[%s] the process was ended by SIGKILL from outside the case (out of scope: C10)", variant))
@@ -108,8 +115,13 @@ func c11Case(w *core.Worker, i int) {
 				w.Violation("read-only-modified", fmt.Sprintf("[%s] a read-only procedure changed the repository: %s", variant, df), txReplay{Files: small(p.Files), Program: p.Text(), Env: env, Variant: variant})
 			}
 		}
+		if strings.HasPrefix(variant, "stdout-reader-gone") {
+			c11LeftoversDumps(w, p, run, baselineStdout, variant, env, allowed)
+			return
+		}
 		c11Leftovers(w, p, run, variant, env, allowed)
 	}
+	head := -1 // >= 0: standard output is a pipe whose reader goes away after that many bytes
 	runKeep := func(prog string, env []string) (string, txRun) {
 		d := filepath.Join(w.Work, "var")
 		_ = os.RemoveAll(d)
@@ -119,7 +131,7 @@ func c11Case(w *core.Worker, i int) {
 		}
 		tp := filepath.Join(w.Work, "var.trace")
 		_ = os.Remove(tp)
-		res := core.RunProc(core.ProcOpts{Dir: d, Args: csvqArgs("-q", "-f", "JSONL", "--wait-timeout", "2", prog), Env: append([]string{"VERIF_TRACE=" + tp}, env...), Timeout: 120 * time.Second})
+		res := core.RunProc(core.ProcOpts{Dir: d, Args: csvqArgs("-q", "-f", "JSONL", "--wait-timeout", "2", prog), Env: append([]string{"VERIF_TRACE=" + tp}, env...), Timeout: 120 * time.Second, HeadStdout: head >= 0, HeadBytes: head})
 		run := txRun{res: res, trace: core.ReadTrace(tp), snap: core.TakeSnap(d)}
 		for _, e := range run.trace {
 			if e.Name == "txcommit.end" {
@@ -136,6 +148,7 @@ func c11Case(w *core.Worker, i int) {
 	}
 	// (a COMMIT that is refused — a header-less table with no record left — is one more way of ending: judged like the others)
 	judge(d, run, "none", nil)
+	baselineStdout = run.res.Stdout
 	w.Case(digest+"/none", true)
 	if i < 4 {
 		w.Sample(map[string]interface{}{"procedure": truncateStr(p.Text(), 1200), "read_only": p.ReadOnly, "hook_points_reached": len(c11Points(run))})
@@ -146,6 +159,20 @@ func c11Case(w *core.Worker, i int) {
 		judge(d, vr, "end:"+st, nil)
 		w.Case(digest+"/end:"+st, vr.res.Code != 0)
 	}
+	// the reader of standard output goes away (`csvq … | head`): csvq meets a broken pipe at its next write — while it holds
+	// whatever the procedure has acquired by then
+	for _, hb := range []int{0, 1, 40, 400, 3000} {
+		head = hb
+		d, vr := runKeep(p.Text(), nil)
+		head = -1
+		variant := fmt.Sprintf("stdout-reader-gone-after-%d-bytes", hb)
+		judge(d, vr, variant, nil)
+		if vr.res.Signal == 13 || vr.res.Code != 0 {
+			w.Count("runs_ended_by_a_broken_pipe", 1)
+		}
+		w.Note("signal_points", "broken-pipe")
+		w.Case(digest+"/"+variant, vr.res.Signal == 13 || vr.res.Code != 0)
+	}
 	pts := c11Points(run)
 	max := 36
 	if w.Tier == "thorough" {
@@ -155,13 +182,13 @@ func c11Case(w *core.Worker, i int) {
 	if len(idx) > max {
 		idx = idx[:max]
 	}
-	sigs := []string{"INT", "TERM", "QUIT"}
+	sigs := []string{"INT", "TERM", "QUIT", "HUP"}
 	for k, pi := range idx {
 		pt := pts[pi]
 		for si, sg := range sigs {
-			if w.Tier != "thorough" && (k+si)%3 != 0 && !strings.HasPrefix(pt, "stmt") {
+			if w.Tier != "thorough" && (k+si)%4 != 0 && !strings.HasPrefix(pt, "stmt") {
 				// quick: every point gets at least one signal kind, rotating
-				if (k+si)%3 != 1 || k%2 == 0 {
+				if (k+si)%4 != 1 || k%2 == 0 {
 					continue
 				}
 			}
